@@ -92,6 +92,26 @@ def answer (toks : List String) : Option String :=
       let ix := fun (l : List (Int × Unit)) => showList (fun e => toString e.1) l
       let ch := showList (fun (e : List Int × Int) => s!"{showList toString e.1}:{e.2}") r.2.2.1
       pure s!"{r.1} {showList showB r.2.1} {ch.replace "," ";"} {ix r.2.2.2.1} {ix r.2.2.2.2.1} {ix r.2.2.2.2.2}"
+  | ["clear", hb, it, lc, sl] => do
+      let r := Gen.chainClear String String String (← parseB hb) (← it.toInt?) (← lc.toInt?) (← sl.toInt?)
+        "cur" "cur" "cur" "old" "old" "old"
+      pure s!"{r.1} {r.2.1} {r.2.2.1} {showList (fun (e : String × Int) => s!"{e.1}:{e.2}") r.2.2.2.1} {r.2.2.2.2}"
+  | ["ss", n, st, acc, diag, xi, mx, maxstd, nacc, scale, eUp, eDown, sUp, sDown] => do
+      let eUp ← parseRat eUp; let eDown ← parseRat eDown; let sUp ← parseRat sUp; let sDown ← parseRat sDown
+      let EXP : Rat → Rat := fun x => if x > 0 then eUp else eDown
+      let SQRT : Rat → Rat := fun a => if a = 1 then 1 else if a = eUp then sUp else sDown
+      let r := Gen.ssUpdate (← n.toInt?) (← st.toInt?) (← parseB acc) (← parseB diag) (← parseRat xi) EXP SQRT
+        (← parseRat mx) (← parseRat maxstd) (← nacc.toInt?) (← parseRat scale)
+      pure s!"{r.1} {showRat r.2}"
+  | ["acceptX", logp, logl, beta, clp, cll, sym, rev, fwd, us] => do
+      let pe : String → Option EL := fun t =>
+        if t = "-inf" then some .ninf else if t = "inf" then some .pinf else if t = "nan" then some .nan
+        else (parseRat t).map .fin
+      let r := Gen.acceptanceRatioX (← pe logp) (← pe logl) (← pe beta) (← pe clp) (← pe cll) (← parseB sym)
+        (← pe rev) (← pe fwd) (← parseList parseRat us)
+      let a := match r.1.2 with
+        | .zero => "zero" | .one => "one" | .exp l => s!"exp:{showRat l}" | .inf => "inf" | .nan => "nan"
+      pure s!"{showB r.1.1} {a} {r.2.length}"
   | ["stateKeys"] => pure (",".intercalate (Gen.chainStateKeys.map (·.1)))
   | ["stateReads"] => pure (",".intercalate ((Gen.chainSetStateFlow.filter (fun f => f.2.1 ≠ "")).map (·.2.1)))
   | _ => none
